@@ -128,6 +128,13 @@ class Check(c05.Check):
                 ctl = parent[t] if rng.random() < 0.7 else rng.choice([q for q in range(n) if q != t])
                 k = rng.randrange(len(rts[ctl]) + 1)
                 rts[ctl][k:k] = [['pause', t], ['y', rng.choice(['0', '1/8', '1/4', '1/2'])], ['resume', t]]
+        if interfere and nconds and n >= 2 and rng.random() < 0.6:
+            # a waiter and a later signaller on the same condition
+            a, b = rng.sample(range(n), 2)
+            c = rng.randrange(nconds)
+            rts[a].insert(rng.randrange(min(len(rts[a]), 3) + 1), ['wait', c])
+            k = rng.randrange(len(rts[b]) + 1)
+            rts[b][k:k] = [['y', rng.choice(['1/8', '1/2', '1', '3/2'])], ['sig', c]]
         for i in range(1, n):
             p = parent[i]
             rts[p].insert(rng.randrange(min(len(rts[p]), 4) + 1), ['spawn', i, rng.choice(clocks)])
